@@ -1,3 +1,9 @@
 import NTV.Proofs.C17
 #print axioms NTV.C17.refuses_when_p_divides_index
 #print axioms NTV.C17.word_copy
+#print axioms NTV.C17.decompose_shape
+#print axioms NTV.C17.degree_sum
+#print axioms NTV.C17.prime_above_lattice
+#print axioms NTV.C17.prime_above_capZ
+#print axioms NTV.C17.decompose_ideals
+#print axioms NTV.C17.decompose_lattices
